@@ -18,7 +18,9 @@ MANIFEST = {
             "generators, chains longer than the window) on the real liskbft.Module/API over diffdb+pebble and comparing after every "
             "block heights, weights, per-validator info, parameter keys and flags with the model evaluated inside Coq.",
     "note": "Trusted: Coq kernel + vm_compute; fidelity of the hand-written model as sampled by the correspondence; Go harness and "
-            "verif hook VerifC02DumpVotes; heights modelled as unbounded N (chains below 2^32-1); the certified height is taken "
+            "verif hook VerifC02DumpVotes; heights/weights are unbounded N in Votes.v — C02_votes32_agrees proves that the wrap-faithful "
+            "model Votes32.v (every uint32/uint64 operation as in the Go code) computes the same results and errors on every valid chain "
+            "with heights <= 2^32-2 and aggregate weights < 2^64; the certified height is taken "
             "from the header's aggregate commit without checking it (that is C06). validatorsHash not modelled.",
 }
 IMPORTS = "From LE Require Import BFT.Contradiction BFT.Votes BFT.GenKeys Corr.C02."
